@@ -64,6 +64,7 @@ class RingMachine(Machine):
 
     max_steps = 200000
     INTERP_PREFIX = ('uring_', 'ufifo_', 'ulifo_', 'upool_')
+    interpret_uatomic = True     # walk the bodies of uatomic_* down to the __atomic builtins
 
     def __init__(self, prog, unit, shared, log=None, live_budget=None, tid=0):
         Machine.__init__(self, prog, unit)
@@ -187,8 +188,62 @@ class RingMachine(Machine):
         # an increment of an element field is a read and a write: two accesses
         return Machine.load(self, fn, lv, env, node)
 
+    def _ptr_load(self, p):
+        if isinstance(p, tuple) and p[0] == 'addr' and p[1] == 'var':
+            return self.cells[(p[3], p[2])].get(p[2], SYM)
+        raise Undecided('atomic builtin operand is not the address of a local')
+
+    def _ptr_store(self, p, v):
+        if isinstance(p, tuple) and p[0] == 'addr' and p[1] == 'var':
+            self.cells[(p[3], p[2])][p[2]] = v
+            return
+        raise Undecided('atomic builtin operand is not the address of a local')
+
+    def eval(self, fn, n, env, depth):
+        if isinstance(n, dict) and n.get('k') == 'atomic':
+            # clang's AtomicExpr operand order: ptr, order, val1 [, order_fail, val2, weak]
+            op = n.get('op')
+            a = [self.eval(fn, x, env, depth) for x in n.get('args', [])]
+            loc = a[0]
+            if not isinstance(loc, tuple):
+                raise Undecided('atomic builtin on an unknown address at line %s' % n.get('l'))
+            if op == '__atomic_load':
+                self._ptr_store(a[2], self.access('load', loc, None, n))
+                return None
+            if op == '__atomic_load_n':
+                return self.access('load', loc, None, n)
+            if op == '__atomic_store':
+                self.access('store', loc, self._ptr_load(a[2]), n)
+                return None
+            if op == '__atomic_store_n':
+                self.access('store', loc, a[2], n)
+                return None
+            if op in ('__atomic_compare_exchange', '__atomic_compare_exchange_n'):
+                exp = self._ptr_load(a[2])
+                des = self._ptr_load(a[4]) if op == '__atomic_compare_exchange' else a[4]
+                ok, cur = self.access('cas', loc, (exp, des), n)
+                if not ok:
+                    self._ptr_store(a[2], cur)
+                return int(ok)
+            if op in ('__atomic_fetch_add', '__atomic_fetch_sub'):
+                d = a[2]
+                if not isinstance(d, int):
+                    raise Undecided('atomic add of a symbolic amount')
+                return self.access('faa', loc, d if op.endswith('add') else -d, n)
+            if op in ('__atomic_add_fetch', '__atomic_sub_fetch'):
+                d = a[2] if op.startswith('__atomic_add') else -a[2]
+                return (self.access('faa', loc, d, n) + d) & 0xffffffff
+            raise Undecided('atomic builtin %s not modelled' % op)
+        return Machine.eval(self, fn, n, env, depth)
+
     def call(self, fn, node, args, env, depth):
         name = node.get('fn')
+        if name in ATOMIC:
+            callee = self.prog.lookup(self.unit, name)
+            if callee is not None and callee.blocks and self.interpret_uatomic:
+                if name.endswith('_clean'):
+                    return None
+                return self.run(callee, [self.eval(fn, a, env, depth) for a in args], depth + 1)
         if name in ATOMIC:
             vals = [self.eval(fn, a, env, depth) for a in args]
             loc = vals[0]
